@@ -161,8 +161,11 @@ func TestC03(t *testing.T) {
 	rec := NewRec("C03", c03Rule)
 	defer rec.Finish(t)
 	rec.EnableJournal()
-	rec.RequireClass("flapping_under_load", "kind_wsclose", "fault_inside_frame", "call_in_window", "double_fault", "kind_fin", "kind_rst", "kind_blackhole", "dir_c2s", "dir_s2c", "window_reached")
+	rec.RequireClass("kind_wsclose", "fault_inside_frame", "call_in_window", "double_fault", "kind_fin", "kind_rst", "kind_blackhole", "dir_c2s", "dir_s2c", "window_reached")
 	sh, nsh := shard()
+	if sh == 0 {
+		rec.RequireClass("flapping_under_load") // that sub-check runs in the first shard only
+	}
 
 	run := func(ft failer, c fsCase) {
 		nt, cl := fsClasses(c)
